@@ -185,7 +185,7 @@ def r04_3(ctx: Ctx, rep: Report) -> None:  # noqa: C901
             # lines list is the line projection of the same item list, same order
             ll = resolve(lines_list)
             rep.instance()
-            if isinstance(ll, ast.ListComp) and len(ll.generators) == 1 and isinstance(ll.elt, ast.Attribute) and ll.elt.attr == "line" and src(ll.generators[0].iter) == src(base) and not ll.generators[0].ifs:
+            if isinstance(ll, ast.ListComp) and len(ll.generators) == 1 and isinstance(ll.elt, ast.Attribute) and ll.elt.attr == "line" and src(ll.generators[0].iter) in (src(base), src(resolve(base))) and not ll.generators[0].ifs:
                 rep.ok(f"Acl.delete_shadow: {snippet(lines_list, 20)} = {snippet(ll, 50)}", "positions of lines = positions of items", where=where(ds))
             else:
                 rep.violation("Acl.delete_shadow", f"{snippet(lines_list) if lines_list is not None else '?'} = {snippet(ll) if ll is not None else '?'}", f"the index is not computed on the line projection of {snippet(base)}: positions do not correspond", where(ds))
